@@ -41,11 +41,13 @@ def main(tier, rep):
                 for ign in (False, True):
                     cfgs.append(dict(kind=kind, idle=idle, max_pool=mp, ignore_exc=ign))
     seqs = list(itertools.product(step_choices, repeat=length))
+    import random
+    pick = random.Random(common.seed() + 99)
     for ci, ce in enumerate(cfgs):
         for si, seq in enumerate(seqs):
             n += 1
             # every configuration sees every sequence in thorough; a rotating third in quick
-            if tier == "quick" and (si + ci) % 3 != 0:
+            if tier == "quick" and pick.random() >= 0.15:
                 continue
             if tier == "thorough" and (si + ci) % 4 != 0:
                 continue
@@ -151,9 +153,9 @@ def pool_level(rep, tier):
                     ev.append({"e": "tick", "d": d})
             traces.append({"h": {"max": maxsize, "idle": idle, "maxrej": 3}, "ev": ev, "seq": seq})
     import random
-    if tier == "quick" and len(traces) > 9000:
+    if tier == "quick" and len(traces) > 5000:
         random.Random(common.seed()).shuffle(traces)
-        traces = traces[:9000]
+        traces = traces[:5000]
     acc, rej, st, _ = tlc.validate_traces("PoolTrace", [{"h": t["h"], "ev": t["ev"]} for t in traces], chunk=5000)
     rep.add("traces_validated_against_impl", len(traces))
     rep.add("trace_states", st)
